@@ -35,7 +35,8 @@ def build_system(c, usys, vol, state_unit="molecule"):
     space = RDGridSpace(w=w, h=h, d=d, cell_env=list(c["env"]), cell_vol=vol, units_system=usys)
     # the specification's amounts 11, 12, ... scaled by 3/8: not whole numbers, yet sums and quotients stay exact in binary
     state = [AMOUNT_SCALE * (11 + k) for k in range(n)] + [AMOUNT_SCALE * (2 * k + 1) for k in range(n)]
-    chem = [int((k + 1) % 3 == 0) for k in range(n)] + [0] * n
+    # (both species carry flags, in different patterns: the first one's is the specification's Chem, the second one's every odd cell)
+    chem = [int((k + 1) % 3 == 0) for k in range(n)] + [int(k % 2 == 1) for k in range(n)]
     return RDSystem(network=net, space=space, state=UnitArray(state, state_unit), chemostats=chem, units_system=usys)
 
 
@@ -76,8 +77,11 @@ def check_case(rep, c, rng, systems):
             rep.violation("nodes", "coarse:node-volume-or-environment", dict(tag, group=g, got_vol=float(vols[g]), spec_vol=nd["size"] * vol,
                                                                             got_env=sp.nodes[g].environment, spec_env=nd["env"]))
             return
-        if int(cg.chemostats[g]) != int(nd["chem"]) or int(cg.chemostats[G + g]) != 0:
-            rep.violation("nodes", "coarse:chemostat", dict(tag, group=g, got=int(cg.chemostats[g]), spec=int(nd["chem"])))
+        # flags are 0 / 1 (a group is chemostated if any member is - GroupChem), for every species
+        second = int(any(k % 2 == 1 for k in range(n) if imap[k] == g))
+        if cg.chemostats[g] != int(nd["chem"]) or cg.chemostats[G + g] != second:
+            rep.violation("nodes", "coarse:chemostat", dict(tag, group=g, got=[float(cg.chemostats[g]), float(cg.chemostats[G + g])],
+                                                          spec=[int(nd["chem"]), second]))
             return
         if not close(float(st[g]), AMOUNT_SCALE * float(nd["x"])):
             rep.violation("nodes", "coarse:state", dict(tag, group=g, got=float(st[g]), spec=AMOUNT_SCALE * nd["x"]))
@@ -153,7 +157,8 @@ def identity_simulation(rep, rng, n):
         # (the cell volume is written with its unit, so the physical system - and the numerical regime - is the same in every
         #  case; the space stores it in its own units, which are not the simulation's)
         system = build_system(c, usys, "%g µm3" % rng.choice([1.0, 8.0, 0.125]))
-        ts = UnitArray([0.0, 0.01, 0.05], "s")
+        # (sample times well apart, or several inside one step followed by a gap, or repeated: the two routes sample alike)
+        ts = UnitArray([[0.0, 0.01, 0.05], [0.0, 2e-4, 5e-4, 0.01, 0.02], [0.0, 0.0, 0.0105, 0.0105, 0.03]][k % 3], "s")
         dt = UnitValue(1e-3, "s")
         o1 = simulate(system, ts, engine=build.make_engine("euler", lib=lib), time_step=dt)
         o2 = simulate(system, ts, engine=build.make_engine("euler", lib=lib), time_step=dt, cgmap=list(range(w * h * d)))
@@ -162,7 +167,8 @@ def identity_simulation(rep, rng, n):
         if not np.all(np.isfinite(a)):
             raise MachineryError("identity-map probe system is numerically unstable (plain run not finite): %s" % c)
         if a.shape != b.shape or not np.allclose(a, b, rtol=1e-9, atol=1e-12) or not np.array_equal(o1.t.value, o2.t.value):
-            rep.violation("identity", "coarse:identity-map-simulation", {"shape": c["shape"], "env": c["env"],
+            rep.violation("identity", "coarse:identity-map-simulation", {"shape": c["shape"], "env": c["env"], "t_sample": list(ts.value), "t_plain": list(o1.t.value),
+                                                                        "t_identity_map": list(o2.t.value),
                                                                         "max_diff": float(np.max(np.abs(a - b))) if a.shape == b.shape else None})
 
 
